@@ -321,6 +321,29 @@ def check_doc_case(case, out, k=0):
                     out.oracle_failures.append({"scenario": sc, "what": fmt + ": loaded offsets/covered text differ", "ann": a,
                                                 "expected": [a["b"], a["e"], exp],
                                                 "actual": None if f2 is None else [f2.begin, f2.end, got]})
+            # --- the indexes of the loaded CAS are keyed by the CODE-POINT offsets: containment queries and removal work on them ---
+            try:
+                for vi, vname in enumerate(["_InitialView", "v2"]):
+                    v2_ = c2.get_view(vname)
+                    A2 = c2.typesystem.get_type(case.get("aname", "x.A"))
+                    idx_ = [(a["b"], a["e"]) for a in case["anns"] if a["view"] == vi and a["indexed"]]
+                    got_sel = [(x.begin, x.end) for x in v2_.select(A2)]
+                    if got_sel != sorted(idx_):
+                        out.oracle_failures.append({"scenario": sc, "what": fmt + ": select on the loaded CAS is not the indexed annotations in offset order",
+                                                    "expected": sorted(idx_), "actual": got_sel})
+                        break
+                    for q in v2_.select(A2):
+                        exp_cov = sorted((b, e) for (b, e) in idx_ if q.begin <= b and e <= q.end)
+                        got_cov = sorted((x.begin, x.end) for x in v2_.select_covered(A2, q))
+                        if got_cov != exp_cov:
+                            out.oracle_failures.append({"scenario": sc, "what": fmt + ": select_covered on the loaded CAS differs from the containment definition on code-point offsets",
+                                                        "span": [q.begin, q.end], "expected": exp_cov, "actual": got_cov})
+                            break
+                    first = next(iter(v2_.select(A2)), None)
+                    if first is not None:
+                        v2_.remove(first); v2_.add(first)
+            except Exception as e:  # noqa: BLE001
+                out.oracle_failures.append({"scenario": sc, "what": fmt + ": index query / remove on the loaded CAS raised " + repr(e)[:200]})
             out.count("loaded:" + fmt)
             # --- replace the text of the first view *after loading*, serialise again: every annotation of
             #     that view (indexed or only referenced) must be written with offsets of the new text ---
